@@ -12,6 +12,7 @@ import traceback
 from . import env
 from . import refmath as rm
 from . import storage as storage_mod
+from . import views as V
 
 # ------------------------------------------------------------------------------------------------------
 # recording pass-throughs around the seams (module-level names of the manager / frame-result modules)
@@ -159,7 +160,7 @@ class Step:
     __slots__ = (
         "index", "op", "msg", "stamp", "lookup", "frame", "frame_kind", "frame_index", "ego_ref", "estimates",
         "est_info", "result", "calls", "exc", "exc_tb", "crit_spec", "pf_spec", "crit", "pf", "manager_gen",
-        "n_results_before", "gt_snapshot",
+        "n_results_before", "gt_snapshot", "est_digest_before", "digest", "eps",
     )
 
     def __init__(self):
@@ -250,6 +251,8 @@ class Lane:
         self.restarts = 0
         self.load_exc = None
         self.load_tb = None
+        self.old_results = []  # frame results of earlier manager generations (one "scene" each)
+        self.old_egos = []
         self.aborted = False
 
     # -- construction ---------------------------------------------------------------------------------
@@ -269,6 +272,8 @@ class Lane:
         ctx, R = self.ctx, self.ctx.R
         d = self._dataset()
         cfg = dict(ctx.plan["config"])
+        if self.token_map and cfg.get("target_uuids"):
+            cfg["target_uuids"] = [self.token_map.get(u, u) for u in cfg["target_uuids"]]
         self.config = R["PerceptionEvaluationConfig"](
             dataset_paths=[d],
             frame_id=self.frame,
@@ -373,8 +378,13 @@ class Lane:
             return st
         if st.frame_kind == "loaded":
             st.ego_ref = tuple(ctx.samples[st.frame_index % len(ctx.samples)]["ego"])
+            st.eps = 1e-6
         else:
+            # the implementation interpolates the ego rotation with pyquaternion, which falls back to a normalised
+            # linear blend for close quaternions (deviation from the proportional angle up to ~1e-6 rad); decisions
+            # of such steps are judged with a correspondingly wider indeterminacy band
             st.ego_ref = ctx.ego_for_time(frame.unix_time)
+            st.eps = 1e-5
         st.estimates, st.est_info = self.render_estimates(msg, st.ego_ref, msg["stamp"])
         st.crit_spec = op.get("crit") or plan["crit_default"]
         st.pf_spec = op.get("pf") or plan["pf_default"]
@@ -383,6 +393,7 @@ class Lane:
         st.n_results_before = len(self.manager.frame_results)
         st.gt_snapshot = list(frame.objects)
         est_before = list(st.estimates)
+        st.est_digest_before = [V.obj_digest(o) for o in st.estimates]
         _CALL_LOG = []
         try:
             st.result = self.manager.add_frame_result(
@@ -422,6 +433,9 @@ class Lane:
 
     def do_restart(self, index):
         self.restarts += 1
+        self.old_results.append(list(self.manager.frame_results))
+        self.old_egos.append([(st.ego_ref, st.frame_kind == "loaded") for st in self.steps
+                              if st.result is not None and st.manager_gen == self.generation])
         self.build_manager()
 
     def do_analyze(self, op, index):
@@ -451,8 +465,9 @@ class Lane:
                 self.do_analyze(op, index)
             else:
                 raise ValueError("unknown op %r" % (kind,))
-        for q in plan.get("lookups", []):
-            self.do_lookup(q["t"], q["tol"], q["interp"], None, pure=True)
+        if ops is None:
+            for q in plan.get("lookups", []):
+                self.do_lookup(q["t"], q["tol"], q["interp"], None, pure=True)
         for m in self.monitors:
             m.on_end(self.ctx, self)
         return self
